@@ -26,8 +26,8 @@ RULE = ("overlap: every pair of boxes with offsets 0..3/sizes 0..3 (1-D) and off
         "(1 element .. whole, at/around the row size) -> staged bytes in a dict store -> prepare_read into a ShardedTensor "
         "with another grid partition (same or different global shape) / a dense tensor (same or different shape, also "
         "non-contiguous) / obj_out=None, sentinel pre-filled; consumers run in a shuffled order; dtypes int64, int32, "
-        "float32, uint8, bfloat16; thorough tier adds all pairs of grid partitions for shapes up to 3x3, 4x2, 2x4, 2x2x2, "
-        "(5,). synthetic: hand-made ShardedTensorEntry lists from random guillotine (non-grid) partitions, shards spread "
+        "float32, uint8, bfloat16; thorough tier adds all pairs of grid partitions (0..2 cuts per axis) for shapes (1..5,), 3x3, 4x2, 2x4, "
+        "1x3, 4x3, 3x4, 4x4, 2x2x2, 2x2x3, 3x2x2, each under three thresholds, plus dense/None/other-shape targets. synthetic: hand-made ShardedTensorEntry lists from random guillotine (non-grid) partitions, shards spread "
         "over ranks and slab byte ranges, merged by the real _get_merged_sharded_tensor_entries or shuffled, optionally "
         "with holes. A case is non-trivial when at least one element is copied; distinct by content hash.")
 TRUSTED = [
@@ -447,7 +447,7 @@ def C08_random_case(rng, i):
 
 def C08_exhaustive_cases(rng):
     cases = []
-    shapes = [[1], [2], [3], [4], [5], [3, 3], [4, 2], [2, 4], [1, 3], [2, 2, 2]]
+    shapes = [[1], [2], [3], [4], [5], [3, 3], [4, 2], [2, 4], [1, 3], [2, 2, 2], [4, 3], [3, 4], [4, 4], [2, 2, 3], [3, 2, 2]]
     k = 0
     for shape in shapes:
         parts = [C08_grid_boxes(list(c)) for c in itertools.product(*[C08_all_cuts(e) for e in shape])]
@@ -669,9 +669,9 @@ def C08_cases(ctx: Ctx):
             cases.append({"kind": "e2e", "shape": shape, "dtype": dt, "src_boxes": boxes, "max_bytes": ESIZE[dt],
                           "dst": {"kind": "sharded", "shape": shape, "boxes": C08_grid_boxes([[0, e] for e in shape])},
                           "order_seed": 2})
-    for i in range(ctx.n(260, 1500)):
+    for i in range(ctx.n(500, 3000)):
         cases.append(C08_random_case(rng, i))
-    for i in range(ctx.n(120, 700)):
+    for i in range(ctx.n(220, 1200)):
         cases.append(C08_synthetic_case(rng, i))
     if ctx.thorough:
         cases += C08_exhaustive_cases(rng)
